@@ -78,7 +78,7 @@ def h_fault(ex, dll, L, kind, fault, windows=(1, 1), nmax=None):
     normal = [f for f, kd, reason in kinds if kd != 'abort']
     t_last = max([f['t'] for f in normal], key=lambda t: t.c) if normal else t0
     for f, reason in aborts:
-        ex.claim('abort.reason_is_timeout', reason == 3, dict(info, reason=reason, src=f['src']))
+        ex.claim('abort.reason_not_busy', reason != 1, dict(info, reason=reason, src=f['src']))
         limit = t_last + long_t + SLACK
         ex.claim('gives_up_within_timeout', f['t'] <= limit, dict(info, abort_at=str(f['t'] - t_last)))
     # whoever stops waiting for a CTS or for data packets tells the peer.  Once the responder has the complete
